@@ -63,7 +63,13 @@ class Contract:
         return env
 
 
-class QF:
+class _Quantified:
+    def truthy(self):
+        raise Unsupported("quantified specification used as a plain truth value (nest quantifiers only as "
+                          "forall inside forall, or under implies / and)")
+
+
+class QF(_Quantified):
     """a bounded universal: forall j in [lo, hi): guard -> fn(j)"""
 
     def __init__(self, lo, hi, fn, guard=True):
@@ -74,13 +80,43 @@ class QF:
         return zimplies(zand(zbool(self.guard), rng), zbool(self.fn(j)))
 
 
-class Conj:
+class Conj(_Quantified):
     def __init__(self, items):
         self.items = items
 
 
+class QE(_Quantified):
+    """a bounded existential: exists j in [lo, hi): fn(j)"""
+
+    def __init__(self, lo, hi, fn):
+        self.lo, self.hi, self.fn = lo, hi, fn
+
+    def inst(self, j, inner=None):
+        r = self.fn(j)
+        if isinstance(r, QE):
+            if inner is None:
+                raise Unsupported("nested existential needs candidate terms")
+            r = zor(*[zbool(r.inst(t, inner)) for t in inner]) if inner else False
+        return zand(to_int_term(self.lo) <= j, j < to_int_term(self.hi), zbool(r))
+
+
+class Imp(_Quantified):
+    """antecedent -> consequent where either side contains quantifiers"""
+
+    def __init__(self, ante, cons):
+        self.ante, self.cons = ante, cons
+
+
+def has_quant(x):
+    if isinstance(x, (QF, QE, Imp)):
+        return True
+    if isinstance(x, Conj):
+        return any(has_quant(i) for i in x.items)
+    return False
+
+
 def flatten_spec(x, heap=None):
-    """-> (list of ground z3 bools, list of QF)"""
+    """-> (list of ground z3 bools, list of QF)   (QE / Imp are handled by assume_spec / oblige_spec)"""
     if isinstance(x, Conj):
         g, q = [], []
         for it in x.items:
@@ -175,7 +211,7 @@ class SpecEval:
     def e_BoolOp(self, node):
         vs = [self.e(v) for v in node.values]
         if isinstance(node.op, ast.And):
-            if any(isinstance(v, (QF, Conj)) for v in vs):
+            if any(isinstance(v, (QF, QE, Imp, Conj)) for v in vs):
                 return Conj(vs)
             return wrap_bool(zand(*[zbool(vals.truthy_term(v, self.heap)) for v in vs]))
         return wrap_bool(zor(*[zbool(vals.truthy_term(v, self.heap)) for v in vs]))
@@ -263,13 +299,20 @@ def specfn(name):
 
 @specfn("implies")
 def _implies(ev, node):
-    a = vals.truthy_term(ev.e(node.args[0]), ev.heap)
+    a0 = ev.e(node.args[0])
+    if has_quant(a0):
+        return Imp(a0, ev.e(node.args[1]))
+    a = vals.truthy_term(a0, ev.heap)
     if isinstance(a, bool) and not a:
         return True
     b = ev.e(node.args[1])
     if isinstance(b, QF):
         return QF(b.lo, b.hi, b.fn, zand(zbool(a), zbool(b.guard)))
+    if isinstance(b, (QE, Imp)):
+        return Imp(wrap_bool(a), b)
     if isinstance(b, Conj):
+        if any(isinstance(x, (QE, Imp)) for x in b.items):
+            return Imp(wrap_bool(a), b)
         return Conj([_imp_into(a, x, ev) for x in b.items])
     return wrap_bool(zimplies(a, zbool(vals.truthy_term(b, ev.heap))))
 
@@ -282,12 +325,39 @@ def _imp_into(a, x, ev):
     return wrap_bool(zimplies(a, zbool(vals.truthy_term(x, ev.heap))))
 
 
+@specfn("exists")
+def _exists(ev, node):
+    snap = SpecEval(ev.ex, ev.st.fork(), ev.env, ev.old_st)
+    lo, hi, fn = ev.e(node.args[0]), ev.e(node.args[1]), snap.e(node.args[2])
+
+    def body(j):
+        r = fn(j)
+        if isinstance(r, QE):
+            return r  # nested existential: expanded by the caller over the candidate terms
+        return vals.truthy_term(r, snap.heap)
+
+    return QE(lo, hi, body)
+
+
 @specfn("forall")
 def _forall(ev, node):
     # the body is instantiated lazily: it must be evaluated against the state as of now
     snap = SpecEval(ev.ex, ev.st.fork(), ev.env, ev.old_st)
     lo, hi, fn = ev.e(node.args[0]), ev.e(node.args[1]), snap.e(node.args[2])
-    return QF(lo, hi, lambda j: vals.truthy_term(fn(j), snap.heap))
+
+    def body(j):
+        r = fn(j)
+        if isinstance(r, QF):
+            # forall j. forall t. P  : one instance at a fresh t (a goal is skolemised, a hypothesis weakened)
+            t = z3.Int(fresh_name("jn"))
+            ctx = ev.ex.ctx
+            if not hasattr(ctx, "extra_terms"):
+                ctx.extra_terms = []
+            ctx.extra_terms.append(t)
+            return r.inst(t)
+        return vals.truthy_term(r, snap.heap)
+
+    return QF(lo, hi, body)
 
 
 @specfn("iff")
@@ -418,6 +488,9 @@ def _rd(ev, node):
     """Rd(candles, j, name): the reading `name` of candle j (spec function of C20)"""
     ser, j, key = [ev.e(a) for a in node.args]
     p = ev.heap[ser.oid] if isinstance(ser, Ref) else None
+    if isinstance(j, (SFloat, SNum, float)) or j is None:
+        # ill-typed position in a (guarded) specification: unspecified reading
+        return SV(z3.Const(fresh_name("unspec"), V))
     if isinstance(p, SeriesP):
         return p.lookup(key, j)
     if hasattr(p, "spec_rd"):
@@ -515,23 +588,81 @@ def make_symbolic(ex, st, name, ty):
     return alts
 
 
+def _parts(x):
+    if isinstance(x, Conj):
+        out = []
+        for i in x.items:
+            out += _parts(i)
+        return out
+    return [x]
+
+
 def assume_spec(ex, st, x, name=""):
-    g, q = flatten_spec(x, st.heap)
-    for c in g:
-        st.assume(c)
-    for qf in q:
-        st.qassumes.append(QAssume(qf.inst, name))
+    """add a specification as a hypothesis.  Universals become engine-instantiated hypotheses,
+    existentials are skolemised; an implication whose antecedent is itself quantified is skipped
+    (assuming less is sound)."""
+    for p in _parts(x):
+        if isinstance(p, QF):
+            st.qassumes.append(QAssume(p.inst, name))
+        elif isinstance(p, QE):
+            w = z3.Int(fresh_name("wit"))
+            w2 = z3.Int(fresh_name("wit"))
+            st.inst_terms.append(("term", w))
+            st.inst_terms.append(("term", w2))
+            st.assume(zbool(p.inst(w, [w2])))
+        elif isinstance(p, Imp):
+            if has_quant(p.ante):
+                ex.ctx.notes.append(f"hypothesis with a quantified antecedent not used: {name}")
+                continue
+            a = zbool(vals.truthy_term(p.ante, st.heap))
+            for c in _parts(p.cons):
+                if isinstance(c, QF):
+                    st.qassumes.append(QAssume(QF(c.lo, c.hi, c.fn, zand(a, zbool(c.guard))).inst, name))
+                elif isinstance(c, QE):
+                    w = z3.Int(fresh_name("wit"))
+                    st.inst_terms.append(("term", w))
+                    st.assume(zimplies(a, zbool(c.inst(w))))
+                elif isinstance(c, Imp):
+                    ex.ctx.notes.append(f"nested implication not used as hypothesis: {name}")
+                else:
+                    st.assume(zimplies(a, zbool(vals.truthy_term(c, st.heap))))
+        else:
+            st.assume(zbool(vals.truthy_term(p, st.heap)))
+
+
+def _candidates(ex, st):
+    """integer terms at which an existential goal is tried: candle positions mentioned on the path"""
+    from .solve import index_terms
+
+    terms, _ = index_terms([zbool(c) for c in st.pc if not isinstance(c, bool)], getattr(ex.ctx, "sums", []), getattr(ex.ctx, "exts", []))
+    out = list(terms.values())
+    for it in st.inst_terms:
+        if it[0] == "term":
+            out.append(it[1])
+    seen = {}
+    for t in out:
+        seen.setdefault(t.get_id(), t)
+    return list(seen.values())[:40]
 
 
 def oblige_spec(ex, st, kind, label, x, node=None, props=None):
-    g, q = flatten_spec(x, st.heap)
-    for c in g:
-        ex.ctx.oblige(st, kind, label, c, node, props=props)
-    for i, qf in enumerate(q):
-        j = z3.Int(fresh_name("j"))
-        st2 = st.fork()
-        st2.inst_terms.append(("term", j))
-        ex.ctx.oblige(st2, kind, label, qf.inst(j), node, props=props)
+    for p in _parts(x):
+        if isinstance(p, QF):
+            j = z3.Int(fresh_name("j"))
+            st2 = st.fork()
+            st2.inst_terms.append(("term", j))
+            ex.ctx.oblige(st2, kind, label, p.inst(j), node, props=props)
+        elif isinstance(p, QE):
+            cands = _candidates(ex, st)
+            goal = zor(*[zbool(p.inst(t, cands)) for t in cands]) if cands else False
+            ex.ctx.oblige(st, kind, label, goal, node, props=props, note="existential goal: disjunction over the candle positions on the path")
+        elif isinstance(p, Imp):
+            st2 = st.fork()
+            assume_spec(ex, st2, p.ante, "antecedent")
+            if ex.ctx.feasible(st2):
+                oblige_spec(ex, st2, kind, label, p.cons, node, props)
+        else:
+            ex.ctx.oblige(st, kind, label, zbool(vals.truthy_term(p, st.heap)), node, props=props)
 
 
 def apply_contract(ex, contract, fv, args, kwargs, st, node):
@@ -642,3 +773,36 @@ def _minof(ev, node):
 @specfn("MaxOf")
 def _maxof(ev, node):
     return _extremum(ev, node, True)
+
+
+@specfn("numb")
+def _numb(ev, node):
+    """numeric value of a scalar reading, booleans counting as 0/1 (python comparison semantics)"""
+    v = ev.e(node.args[0])
+    if v is None:
+        return SFloat(z3.RealVal(0))
+    return SFloat(to_real_term(v))
+
+
+@specfn("isscalar")
+def _isscalar(ev, node):
+    """float | int | bool : what isinstance(x, (float, int)) accepts"""
+    v = ev.e(node.args[0])
+    if isinstance(v, SV):
+        return wrap_bool(vals.v_is_numlike(v.t))
+    return vals.is_numeric_static(v)
+
+
+@specfn("Count")
+def _count(ev, node):
+    """Count(lo, hi, lambda j: cond): number of lo <= j < hi with cond"""
+    from .iteration import find_or_make_sum
+
+    snap = SpecEval(ev.ex, ev.st.fork(), ev.env, ev.old_st)
+    lo, hi, fn = ev.e(node.args[0]), ev.e(node.args[1]), snap.e(node.args[2])
+    lo_t, hi_t = to_int_term(lo), to_int_term(hi)
+    body = lambda k: z3.If(zbool(vals.truthy_term(fn(k), snap.heap)), z3.RealVal(1), z3.RealVal(0))
+    t = find_or_make_sum(ev.ex, ev.st, body, lo_t, hi_t)
+    c = z3.ToInt(t)
+    ev.st.assume(z3.And(t == z3.ToReal(c), c >= 0))
+    return SInt(c)
